@@ -663,6 +663,9 @@ PURE_EXTERNAL_MODULES = {'numpy', 'json', 'yaml', 'itertools', 'functools', 'sci
 IMPURE_EXTERNAL = {'fill_diagonal', 'put', 'copyto', 'place', 'putmask', 'shuffle', 'put_along_axis', 'dump', 'setattr', 'update_wrapper'}
 # …except these (json.dump / yaml.dump write to a stream, not to the data)
 IMPURE_EXTERNAL_OK = {('yaml', 'dump'), ('json', 'dump')}
+# numpy functions that may hand back the very array they were given (no copy when the dtype already fits) or a view of it
+VIEW_EXTERNAL = {'asarray', 'asanyarray', 'ascontiguousarray', 'asfarray', 'ravel', 'reshape', 'squeeze', 'atleast_1d', 'atleast_2d',
+                 'transpose', 'swapaxes', 'real', 'imag', 'diagonal', 'flip', 'broadcast_to', 'expand_dims'}
 
 def _lv_deref(l): return 'deep'
 def _lv_shallow(l): return 'shallow'
@@ -1247,6 +1250,8 @@ class EffectAnalysis:
                 if mod in PURE_EXTERNAL_MODULES and (name not in IMPURE_EXTERNAL or (mod, name) in IMPURE_EXTERNAL_OK):
                     if (mod, name) == ('functools', 'partial'):
                         result |= {(r, 'shallow') for r, _ in arg_aliases}
+                    elif mod == 'numpy' and name in VIEW_EXTERNAL:
+                        result |= set(arg_aliases)          # may return its argument itself / a view of it: writes go through
                 else:
                     if arg_aliases:
                         u.unknown.add(f'{mod}.{name}')
